@@ -27,7 +27,7 @@ RULE = (
     "non-trivial = the architecture has an import edge"
 )
 ASSUMPTIONS = [
-    "realizable architectures (leaf importers); components pairwise unrelated in the hierarchy",
+    "realizable architectures (leaf importers); components pairwise unrelated in the hierarchy (full oracle); with a component that is a sub module of another component only 'some pair of unrelated components does not conform => the rule fails' is judged",
     "conformance formula: for all distinct components a, b: (some import from a or below into b or below) <=> arrow a->b; should-only mode additionally: a component with outgoing arrows imports nothing outside itself and its drawn targets",
     "aggregated message compared as a set of lines with the messages of the generated pairwise rules evaluated one by one",
 ]
@@ -42,7 +42,7 @@ def plan(tier, seed):
         shards += plan_graph_shards("B", n_max=6, n_min=6, k=2, parts=8)
     shards += [dict(s, naming="selfprefix", bound=s["bound"] + " naming=selfprefix")
                for s in plan_graph_shards("A", n_max=4, chunk=8 if tier == "quick" else 4)]
-    req = ["True/PASS", "True/FAIL", "False/PASS", "False/FAIL", "naming:short", "naming:dotted", "aggregate>1", "re-applied", "re-configured"]
+    req = ["True/PASS", "True/FAIL", "False/PASS", "False/FAIL", "naming:short", "naming:dotted", "aggregate>1", "re-applied", "re-configured", "nested-components:must-fail"]
     return {"shards": shards, "require_nonzero": req}
 
 
@@ -213,6 +213,41 @@ def check(ns, I, comps, base_mod, arrows, should_only, ev, files, res, decoys=()
     return None
 
 
+def nested_sets(ns):
+    """Component sets in which one component is a sub module of another (a package and one of its own packages both
+    drawn), plus one component unrelated to both."""
+    non_root = ns[1:]
+    out = []
+    for p in non_root:
+        for c in non_root:
+            if c.startswith(p + "."):
+                for o in non_root:
+                    if unrelated((o, p)) and unrelated((o, c)):
+                        out.append((o, p, c))
+    return out
+
+
+def check_nested(ns, I, comps, arrows, should_only, ev, files, res):
+    """Nested components: only the part of the statement that does not depend on how a component and its own sub
+    component relate to each other is judged - if some pair of *unrelated* components is drawn without an import
+    or imports without being drawn, the rule must fail (never the other way round)."""
+    D = {c: desc(c, ns) for c in comps}
+    A = set(arrows)
+    bad = [(a, b) for a in comps for b in comps if a != b and unrelated((a, b))
+           and any(u in D[a] and v in D[b] for u, v in I) != ((a, b) in A)]
+    text = diagram_text(comps, arrows)
+    got = run_rule(DiagramRule(should_only_rule=should_only).from_file(files.path(text)).base_module_included_in_module_names(), ev)
+    if res is not None:
+        res.transitions += 1
+        res.evaluations += 1
+        res.stats["nested-components:" + ("must-fail" if bad else "not-judged")] += 1
+        if bad:
+            res.traces += 1
+    if bad and got[0] != FAIL:
+        return ("nested-components-verdict", "dotted", {"must": FAIL, "non-conforming pairs": [list(x) for x in bad]}, list(got))
+    return None
+
+
 def _decoys(ns, seed):
     """Two other architectures over the same modules: no import at all / every admissible import."""
     return [build(ns, [], seed), build(ns, admissible_pairs(ns), seed)]
@@ -237,6 +272,15 @@ def run_shard(shard, tier, seed):
                                                  "arrows": [list(a) for a in arrows], "should_only": so, "naming": v[1], "seed": seed}, v[2], v[3])
                 if len(res.samples) < 1 and I:
                     res.sample({"modules": ns, "imports": I, "components": list(comps), "diagram": diagram_text(comps, [(comps[0], comps[1])])})
+            for comps in nested_sets(ns):
+                pairs = [(a, b) for a in comps for b in comps if a != b and unrelated((a, b))]
+                for bits in range(1 << len(pairs)):
+                    arrows = [pairs[i] for i in range(len(pairs)) if bits >> i & 1]
+                    for so in (True, False):
+                        v = check_nested(ns, I, comps, arrows, so, ev, files, res)
+                        if v:
+                            res.violation(v[0], {"nested": True, "modules": ns, "imports": I, "components": list(comps), "base": None,
+                                                 "arrows": [list(a) for a in arrows], "should_only": so, "naming": v[1], "seed": seed}, v[2], v[3])
     finally:
         remove_scratch(base)
     return res
@@ -247,6 +291,9 @@ def _check_case(case):
     base = scratch_dir("c07-replay")
     try:
         ev = build(ns, I, case.get("seed", 0))
+        if case.get("nested"):
+            v = check_nested(ns, I, tuple(case["components"]), [tuple(a) for a in case["arrows"]], case["should_only"], ev, Files(base), None)
+            return (v[0], v[2], v[3]) if v else None
         v = check(ns, I, tuple(case["components"]), case["base"], [tuple(a) for a in case["arrows"]], case["should_only"], ev, Files(base), None,
                   _decoys(ns, case.get("seed", 0)))
         return (v[0], v[2], v[3]) if v else None
